@@ -103,6 +103,7 @@ func c15Specials(full bool) []c15Special {
 	out = append(out,
 		c15Special{"tombstone=1", data.Point{Type: "tb", Value: 4, Text: "gone", Tombstone: 1}, false, false},
 		c15Special{"tombstone=2", data.Point{Type: "tb", Value: 4, Text: "back", Tombstone: 2}, false, false},
+		c15Special{name: "nodeID->sibling in a removed entry (tombstone=1 after a live write)", p: data.Point{Type: data.PointTypeNodeID, Key: "1", Text: "REF-LAST", Tombstone: 1}, liveFirst: true},
 		c15Special{name: "tombstone=1 after a live write", p: data.Point{Type: "tb", Key: "k2", Value: 4, Text: "gone", Tombstone: 1}, liveFirst: true},
 		c15Special{name: "edge tombstone=1 after a live write", p: data.Point{Type: "etb", Key: "k2", Value: 4, Text: "x", Tombstone: 1}, edge: true, liveFirst: true},
 		c15Special{"edge text", data.Point{Type: "etx", Text: "edge: text", Value: 1.5}, true, false},
